@@ -7,8 +7,19 @@ use super::*;
 fn usable_size(p: *const u8) -> usize {
     unsafe { libc::malloc_usable_size(p as *mut libc::c_void) }
 }
+/// Under Kani: the size that was actually requested from the allocator (recorded by the stubbed
+/// `allocate_aligned`, which otherwise allocates exactly that many bytes with the requested alignment), so an
+/// undersized request is an assertion failure Kani can concretise – on top of CBMC's own pointer checks.
+static mut LAST_REQUEST: usize = 0;
 fn usable_size_model(_p: *const u8) -> usize {
-    usize::MAX
+    unsafe { LAST_REQUEST }
+}
+fn allocate_aligned_model(size: usize, alignment: usize) -> Result<NonNull<u8>> {
+    unsafe {
+        LAST_REQUEST = size;
+    }
+    let layout = Layout::from_size_align(size, alignment).map_err(|_| FeoxError::AllocationFailed)?;
+    NonNull::new(unsafe { alloc(layout) }).ok_or(FeoxError::AllocationFailed)
 }
 
 /// new(n) for a symbolic small n: capacity is the block-rounded size, set_len(capacity) is accepted and
@@ -16,6 +27,7 @@ fn usable_size_model(_p: *const u8) -> usize {
 #[kani::proof]
 #[kani::unwind(3)]
 #[kani::stub(usable_size, usable_size_model)]
+#[kani::stub(FeoxAllocator::allocate_aligned, allocate_aligned_model)]
 fn c20_aligned_buffer_capacity_is_allocated() {
     let n: usize = kani::any();
     kani::assume(n >= 1 && n <= 2 * FEOX_BLOCK_SIZE);
